@@ -61,13 +61,35 @@ def main(run):
             for bl in blens:
                 lines.append("c01 udp 0 %d 1 0 O %d %s" % (code, nn, "@%d,1" % bl if bl else "-"))
                 kinds.append("limit")
+    # stream framing: coap_pdu_parse_size on the header (+ token-length extension bytes) of valid
+    # and mutated TCP encodings, all four Len forms x token forms
+    for i in range(1500 if run.tier == "quick" else 40000):
+        proto, b = gen_wire.gen_valid_msg(r, small=(i % 7 != 0))
+        if proto != "tcp":
+            tl = r.choice([0, 1, 8, 12, 13, 14, 268, 269, 300])
+            pl = gen_wire.rbytes(r, r.choice([0, 1, 5, 11, 12, 13, 200, 267, 268, 269, 300]))
+            b = gen_wire.py_serialize("tcp", 0, r.choice([1, 2, 69, 225]), 0, gen_wire.rbytes(r, tl),
+                                      [(11, b"a")] if r.random() < 0.5 else [], pl)
+        if r.random() < 0.3:
+            b = gen_wire.mutate(r, b)
+        if not b:
+            continue
+        hs = 2 if b[0] >> 4 < 13 else 3 if b[0] >> 4 == 13 else 4 if b[0] >> 4 == 14 else 6
+        ext = 1 if b[0] & 15 == 13 else 2 if b[0] & 15 == 14 else 0
+        if len(b) < hs + ext:
+            continue
+        for cut in (hs + ext, len(b)):
+            lines.append("psize tcp " + b[:cut].hex())
+            kinds.append("framesize")
+        lines.append("psize ws " + b[:max(2, hs)].hex())
+        kinds.append("framesize")
     om, oc, crashes = tie.run_both(model, drv, lines)
     run.cov["driver_crashes"] = len(crashes)
     nbad = 0
     for i, ln in enumerate(lines):
         mo, co = om[i], oc[i]
         acc = mo != "REJECT" and "REJECT" not in mo
-        nontriv = kinds[i] in ("mutated", "sweep", "limit") or (acc and "o=-" not in mo)
+        nontriv = kinds[i] in ("mutated", "sweep", "limit", "framesize") or (acc and "o=-" not in mo)
         run.count(ln, nontriv)
         run.hist("kind", kinds[i])
         run.hist("reference_verdict", "accept" if acc else "reject")
